@@ -115,7 +115,7 @@ func (c *Card) AvailableBuffer() ([]byte, time.Time, error) {
 			for col := 0; col < c.Ncols; col++ {
 				c.count++
 				fb := byte(0)
-				if row == 0 {
+				if row == 0 && c.Fail != "silent" { // a silent crate sends words without any frame bit
 					fb = 1
 				}
 				// word layout: errLo errHi fbLo fbHi; the frame bit is bit 0 of fbLo in row 0
